@@ -26,6 +26,8 @@ var scenarios = map[string]scenario{
 	"d10-residue":         {run: scenarioD10, genesis: func(g *GenesisSpec) { g.NodeParams.VstorageThreshold = 5000000 }},
 	"d13-debt-from-income": {run: scenarioD13, genesis: func(g *GenesisSpec) { g.NodeParams.BlockReward = sdk.NewInt64Coin(Denom, 0) }},
 	"d15-timeout":         {run: scenarioD15},
+	"d15-long-timeout":    {run: scenarioD15Long},
+	"d15-two-in-flight":   {run: scenarioD15Two},
 	"d16-base-prefix":     {run: scenarioD16},
 	"d18-genesis":         {run: scenarioD18},
 	"d19-block-reward":    {run: scenarioD19, genesis: func(g *GenesisSpec) { g.NodeParams.BlockReward = sdk.NewInt64Coin(Denom, 360000000000000); g.NodeParams.Baseline = sdk.NewInt64Coin(Denom, 1) }},
@@ -196,6 +198,36 @@ func scenarioD15(r *Recorder, accts []*Account) {
 	m.store(o, dataA, dataA, 1, 1000000, 1, 3600, -1)
 	r.EndBlock()
 	r.Blocks(3)
+}
+
+// D15 (second form): a timeout longer than the order's lifetime. The first check (at
+// created+timeout) finds the order older than its duration minus the timeout and returns
+// without re-scheduling: the order stays DataReady, its payment in escrow, until its creator cancels.
+func scenarioD15Long(r *Recorder, accts []*Account) {
+	m := newMiniWorld(r, accts, 2)
+	o := m.owners[0]
+	r.BeginBlock()
+	m.store(o, dataA, dataA, 1, 1000000, 1, 3600, 3000)
+	r.EndBlock()
+	r.Blocks(3005)
+}
+
+// Consequence of D15 (found while proving Inv_one_in_flight): the unresolved order outlives its
+// model (the model end blocker deletes the expired model without looking at the order); storing
+// the same data id again then opens a second unfinished order for it.
+func scenarioD15Two(r *Recorder, accts []*Account) {
+	m := newMiniWorld(r, accts, 2)
+	o := m.owners[0]
+	r.BeginBlock()
+	m.store(o, dataA, dataA, 1, 1000000, 1, 3600, 3000)
+	r.EndBlock()
+	r.Blocks(3610)
+	r.BeginBlock()
+	for _, p := range m.providers {
+		r.NodeReset(p, "", 13, "", nil) // the providers report in again
+	}
+	m.store(o, dataA, dataA, 1, 1000000, 1, 3600, 100)
+	r.EndBlock()
 }
 
 // D16: the base version of an update is checked with strings.Contains: a one-character base passes.
